@@ -1224,3 +1224,7 @@ mod tests {
         assert!(matches!(updater.ops[2], LeafOp::Insert(_, _, _)));
     }
 }
+
+#[cfg(kani)]
+#[path = "/verif/units/kani/update_leaf_updater.rs"]
+pub(crate) mod verif_kani;
